@@ -108,22 +108,22 @@ func (l *Log) Now() time.Duration { return time.Since(l.start) }
 
 // Cluster is the simulated HBase cluster.
 type Cluster struct {
-	mu        sync.Mutex
-	servers   map[string]*Server
-	regions   []*Region
-	metaAddr  string
+	mu         sync.Mutex
+	servers    map[string]*Server
+	regions    []*Region
+	metaAddr   string
 	masterAddr string
-	tables    map[string]*tableData
-	scanners  map[uint64]*scannerState
-	nextScan  uint64
-	clock     uint64 // logical timestamp source
-	nextID    uint64
-	rng       *rand.Rand
-	Log       *Log
-	connSeq   int64
+	tables     map[string]*tableData
+	scanners   map[uint64]*scannerState
+	nextScan   uint64
+	clock      uint64 // logical timestamp source
+	nextID     uint64
+	rng        *rand.Rand
+	Log        *Log
+	connSeq    int64
 
 	// Behaviour knobs (set before use, read under mu or immutable)
-	OnRequest      func(*Request) *Reply       // whole-frame interception
+	OnRequest      func(*Request) *Reply        // whole-frame interception
 	OnAction       func(*Request, *Action) *Exc // per single operation
 	OnRegionAction func(*Request, []byte) *Exc  // per region of a multi
 	ScanPolicy     func(*ScanCtx) ScanChunk
@@ -133,17 +133,17 @@ type Cluster struct {
 	// server answer it with more_results=false (and close its scanner) even
 	// though rows remain: a server-side limit or filter ended the scan.
 	ForceNoMoreResults func(*Request) bool
-	MaxReplyDelay  time.Duration // responses are delayed by a random time up to this (reorders them)
-	PermuteMulti   bool          // permute ResultOrException inside a region action result
-	PBResults      bool          // send results inside protobuf instead of cellblocks
-	EchoResults    bool          // mutations answer with cells derived from the request
-	ZKErr          func() error  // non-nil error => ZK lookup fails
-	ZKBlock        chan struct{} // non-nil => ZK lookups block until closed
-	DialFault      func(addr string, n int) error
-	DialDelay      func(addr string, n int) time.Duration
-	WrapConn       func(addr string, c net.Conn) net.Conn
-	dials          map[string]int
-	closed         bool
+	MaxReplyDelay      time.Duration // responses are delayed by a random time up to this (reorders them)
+	PermuteMulti       bool          // permute ResultOrException inside a region action result
+	PBResults          bool          // send results inside protobuf instead of cellblocks
+	EchoResults        bool          // mutations answer with cells derived from the request
+	ZKErr              func() error  // non-nil error => ZK lookup fails
+	ZKBlock            chan struct{} // non-nil => ZK lookups block until closed
+	DialFault          func(addr string, n int) error
+	DialDelay          func(addr string, n int) time.Duration
+	WrapConn           func(addr string, c net.Conn) net.Conn
+	dials              map[string]int
+	closed             bool
 }
 
 // Exc is a Java exception to send.
